@@ -387,15 +387,60 @@ func (a *c20) mentionsLen(x *c20Ctx, v ssa.Value, depth int) bool {
 }
 
 func (a *c20) lockKind(in ssa.Instruction) (lockOpKind, bool) {
+	return a.lockKindX(nil, in)
+}
+
+// lockKindX recognises an operation on the Pool mutex: a direct call of
+// Lock/Unlock/RLock/RUnlock, or a call of a method value of the mutex
+// (`unlock := p.lock.Unlock; defer unlock()`, an element of a table of steps).
+func (a *c20) lockKindX(x *c20Ctx, in ssa.Instruction) (lockOpKind, bool) {
 	ci, ok := in.(ssa.CallInstruction)
 	if !ok {
 		return 0, false
 	}
-	id, kind, ok := a.e.lockOp(ci)
-	if !ok || id != a.ro.LockID {
+	if id, kind, ok := a.e.lockOp(ci); ok {
+		return kind, id == a.ro.LockID
+	}
+	cc := ci.Common()
+	if cc.IsInvoke() || builtinName(ci) != "" {
 		return 0, false
 	}
-	return kind, true
+	v := cc.Value
+	if x != nil && x.Callee != nil {
+		v = x.Callee
+	} else if x != nil {
+		v, _ = x.Resolve(v)
+	}
+	src, open := a.k.origins(v)
+	if open || len(src) != 1 {
+		return 0, false
+	}
+	mc, ok := src[0].(*ssa.MakeClosure)
+	if !ok || len(mc.Bindings) != 1 {
+		return 0, false
+	}
+	w, _ := mc.Fn.(*ssa.Function)
+	if !c20IsBoundWrapper(w) {
+		return 0, false
+	}
+	obj, _ := w.Object().(*types.Func)
+	if obj == nil || obj.Pkg() == nil || obj.Pkg().Path() != "sync" {
+		return 0, false
+	}
+	if id, ok := lockIdent(mc.Bindings[0]); !ok || id != a.ro.LockID {
+		return 0, false
+	}
+	switch obj.Name() {
+	case "Lock":
+		return opLock, true
+	case "Unlock":
+		return opUnlock, true
+	case "RLock":
+		return opRLock, true
+	case "RUnlock":
+		return opRUnlock, true
+	}
+	return 0, false
 }
 
 func c20SortedKeys(m map[string]bool) string {
@@ -496,8 +541,8 @@ const (
 )
 
 // lockStep applies a lock operation on the Pool mutex to the lock bits.
-func (a *c20) lockStep(in ssa.Instruction, s c20State) (c20State, bool) {
-	kind, ok := a.lockKind(in)
+func (a *c20) lockStep(x *c20Ctx, in ssa.Instruction, s c20State) (c20State, bool) {
+	kind, ok := a.lockKindX(x, in)
 	if !ok {
 		return s, false
 	}
@@ -531,7 +576,7 @@ func (a *c20) checkGuard() {
 		if _, isDefer := in.(*ssa.Defer); isDefer && !x.Replaying {
 			return s
 		}
-		if ns, ok := a.lockStep(in, s); ok {
+		if ns, ok := a.lockStep(x, in, s); ok {
 			return ns
 		}
 		if in == ssa.Instruction(a.goInstr) {
@@ -586,15 +631,33 @@ func (a *c20) checkGuard() {
 			roots = append(roots, root{fn, 0})
 		}
 	}
+	const bPriv c20State = 1 << 9 // constructor phase: no goroutine started yet, the Pool built here is not shared
 	for _, rt := range roots {
 		bad := map[ssa.Instruction]bool{}
 		n := 0
+		entry := rt.entry
+		// an entry point that is not handed a Pool can only reach Pools it allocates itself:
+		// until it starts a goroutine they are private (also inside the helpers it calls)
+		if rt.fn != a.root {
+			hasPool := false
+			for _, pa := range rt.fn.Params {
+				if namedKey(pa.Type()) == a.ro.PoolType {
+					hasPool = true
+				}
+			}
+			if !hasPool {
+				entry |= bPriv
+			}
+		}
 		f := &c20PathFlow{K: a.k}
 		f.Instr = func(x *c20Ctx, in ssa.Instruction, s c20State) c20State {
 			if _, isDefer := in.(*ssa.Defer); isDefer && !x.Replaying {
 				return s
 			}
-			if ns, ok := a.lockStep(in, s); ok {
+			if _, isGo := in.(*ssa.Go); isGo {
+				return s &^ bPriv
+			}
+			if ns, ok := a.lockStep(x, in, s); ok {
 				return ns
 			}
 			if m, ok := need[in]; ok {
@@ -602,13 +665,13 @@ func (a *c20) checkGuard() {
 					visited[in] = true
 				}
 				n++
-				if !(s&c20LW != 0 || (m == ModeR && s&c20LR != 0)) {
+				if !(s&bPriv != 0 || s&c20LW != 0 || (m == ModeR && s&c20LR != 0)) {
 					bad[in] = true
 				}
 			}
 			return s
 		}
-		f.Run(rt.fn, c20Set{rt.entry: {}})
+		f.Run(rt.fn, c20Set{entry: {}})
 		if n == 0 {
 			continue
 		}
@@ -649,61 +712,88 @@ func (a *c20) checkGuard() {
 // checkWaits: Y3, blocking operations of the watcher and everything it runs.
 func (a *c20) checkWaits() {
 	r, p := a.r, a.p
-	nWait := 0
-	var fns []*ssa.Function
-	for fn := range a.W {
-		fns = append(fns, fn)
+	type wait struct {
+		fn             *ssa.Function
+		kind, desc     string
+		closed, member c20Tri
 	}
-	sort.Slice(fns, func(i, j int) bool { return FuncName(p, fns[i]) < FuncName(p, fns[j]) })
-	dynamic := false
-	for _, fn := range fns {
-		allInstrs(fn, func(in ssa.Instruction) {
-			if c, ok := in.(*ssa.Call); ok && staticCallee(c) == nil && builtinName(c) == "" && !c.Call.IsInvoke() {
-				dynamic = true
+	worse := func(x, y c20Tri) c20Tri {
+		switch {
+		case x == c20No || y == c20No:
+			return c20No
+		case x == c20Unknown || y == c20Unknown:
+			return c20Unknown
+		}
+		return c20Yes
+	}
+	waits := map[ssa.Instruction]*wait{}
+	f := &c20PathFlow{K: a.k}
+	f.Instr = func(x *c20Ctx, in ssa.Instruction, s c20State) c20State {
+		a.W[x.Fn()] = true
+		switch i := in.(type) {
+		case *ssa.Select:
+			if !i.Blocking {
+				return s
 			}
-		})
-		for _, op := range blockingOps(a.e, fn) {
-			fname := FuncName(p, fn)
-			switch op.Kind {
-			case "lock":
-				continue
-			case "select":
-				nWait++
-				closed, member := c20No, c20No
-				for _, cs := range op.Sel.Cases {
-					if cs.Dir != types.RecvOnly {
-						continue
-					}
-					if t := a.k.allOrigins(cs.ChanV, a.isClosedLoad); t > closed || closed == c20No {
-						if t != c20No {
-							closed = t
-						}
-					}
-					if t := a.k.allOrigins(cs.ChanV, a.isMemberElem); t != c20No && member != c20Yes {
-						member = t
-					}
+			closed, member := c20No, c20No
+			for _, cs := range decodeSelect(i).Cases {
+				if cs.Dir != types.RecvOnly {
+					continue
 				}
-				switch {
-				case closed == c20Yes && member == c20Yes:
-					r.OK("C20.Y3-waits", fname+" select", p.Pos(instrPos(op.Instr)), "wait selects on a member channel and on the Cancel channel")
-				case closed == c20No || member == c20No:
-					what := "the Cancel channel case (the watcher would outlive Cancel)"
-					if member == c20No {
-						what = "a case on a channel taken from the members slice (the pool would end early or never)"
-					}
-					r.Violation("C20.Y3-waits", fname+" select", p.Pos(instrPos(op.Instr)), "a wait in the watcher lacks "+what)
-				default:
-					r.Undecide("C20.Y3-waits %s select at %s: the provenance of a case channel could not be traced to the members slice / the Cancel channel", fname, p.Pos(instrPos(op.Instr)))
+				if t := a.orig(x, cs.ChanV, a.isClosedLoad); t != c20No && closed != c20Yes {
+					closed = t
 				}
-			default:
-				nWait++
-				r.Violation("C20.Y3-waits", fname+" "+op.Kind, p.Pos(instrPos(op.Instr)), "the watcher blocks outside a select that has the Cancel channel case: "+op.Desc)
+				if t := a.orig(x, cs.ChanV, a.isMemberElem); t != c20No && member != c20Yes {
+					member = t
+				}
+			}
+			if w := waits[in]; w != nil {
+				w.closed, w.member = worse(w.closed, closed), worse(w.member, member)
+			} else {
+				waits[in] = &wait{fn: x.Fn(), kind: "select", closed: closed, member: member}
+			}
+		case *ssa.UnOp:
+			if i.Op == token.ARROW {
+				waits[in] = &wait{fn: x.Fn(), kind: "recv", desc: "receive on " + chanIdent(i.X)}
+			}
+		case *ssa.Send:
+			waits[in] = &wait{fn: x.Fn(), kind: "send", desc: "send on " + chanIdent(i.Chan)}
+		case *ssa.Call:
+			if callIs(i, "sync", "WaitGroup", "Wait") {
+				waits[in] = &wait{fn: x.Fn(), kind: "wg.Wait", desc: "WaitGroup.Wait"}
 			}
 		}
+		return s
 	}
-	if nWait == 0 {
-		if dynamic {
-			r.Undecide("C20.Y3-waits: no blocking wait found in the watcher %s, but it calls function values that were not followed", a.wname)
+	f.Run(a.root, c20Set{0: {}})
+	var ins []ssa.Instruction
+	for in := range waits {
+		ins = append(ins, in)
+	}
+	sort.Slice(ins, func(i, j int) bool { return instrPos(ins[i]) < instrPos(ins[j]) })
+	for _, in := range ins {
+		w := waits[in]
+		fname := FuncName(p, w.fn)
+		if w.kind != "select" {
+			r.Violation("C20.Y3-waits", fname+" "+w.kind, p.Pos(instrPos(in)), "the watcher blocks outside a select that has the Cancel channel case: "+w.desc)
+			continue
+		}
+		switch {
+		case w.closed == c20Yes && w.member == c20Yes:
+			r.OK("C20.Y3-waits", fname+" select", p.Pos(instrPos(in)), "wait selects on a member channel and on the Cancel channel")
+		case w.closed == c20No || w.member == c20No:
+			what := "the Cancel channel case (the watcher would outlive Cancel)"
+			if w.member == c20No {
+				what = "a case on a channel taken from the members slice (the pool would end early or never)"
+			}
+			r.Violation("C20.Y3-waits", fname+" select", p.Pos(instrPos(in)), "a wait in the watcher lacks "+what)
+		default:
+			r.Undecide("C20.Y3-waits %s select at %s: the provenance of a case channel could not be traced to the members slice / the Cancel channel", fname, p.Pos(instrPos(in)))
+		}
+	}
+	if len(waits) == 0 {
+		if len(f.Imprecise) > 0 || len(f.Unfollowed) > 0 {
+			r.Undecide("C20.Y3-waits: no blocking wait found on the followed paths of the watcher %s, but not everything it calls could be followed (%s %s)", a.wname, c20SortedKeys(f.Imprecise), c20SortedKeys(f.Unfollowed))
 		} else {
 			r.Violation("C20.Y3-waits", a.wname+" select", p.Pos(a.root.Pos()), "the watcher no longer waits for any member (the pool context would end at once)")
 		}
@@ -1252,7 +1342,7 @@ func (a *c20) checkAdd() {
 		if _, isDefer := in.(*ssa.Defer); isDefer && !x.Replaying {
 			return s
 		}
-		if kind, ok := a.lockKind(in); ok {
+		if kind, ok := a.lockKindX(x, in); ok {
 			s &^= bND | bNC | bEL | bALL | loadMask
 			switch kind {
 			case opLock:
@@ -1535,7 +1625,7 @@ func (a *c20) checkCancel() {
 		if _, isDefer := in.(*ssa.Defer); isDefer && !x.Replaying {
 			return s
 		}
-		if kind, ok := a.lockKind(in); ok {
+		if kind, ok := a.lockKindX(x, in); ok {
 			if (kind == opUnlock || kind == opRUnlock) && s&(bCL|bCLf) != 0 {
 				unlockBad[in] = true
 			}
@@ -1812,6 +1902,11 @@ func (a *c20) checkInitial() {
 					progression = true
 					for _, ed := range phi.Edges {
 						if c, ok := ed.(*ssa.Const); ok && c.Value != nil && c.Int64() == -1 {
+							continue
+						}
+						// rotated loop (range over an int, do-while): the body runs for phi = 0 first and the
+						// test at the bottom asks whether the NEXT index is still in range
+						if c, ok := ed.(*ssa.Const); ok && c.Value != nil && c.Int64() == 0 && phi.Block() != header && phi.Block().Dominates(header) {
 							continue
 						}
 						if ed == ssa.Value(v) {
